@@ -234,9 +234,17 @@ func GenValid(r *rand.Rand, profile string) *Policy {
 	if r.Intn(8) == 0 {
 		ng = 5 + r.Intn(3)
 	}
+	// many groups (what a fixed-size table, an 8-bit group index or a per-group jump budget would stumble over)
+	manyGroups := r.Intn(16) == 0
+	if manyGroups {
+		ng = []int{8, 9, 15, 16, 17, 31, 32, 33, 64, 65, 100, 127, 128, 129, 255, 256, 257, 300}[r.Intn(18)]
+	}
 	for gi := 0; gi < ng; gi++ {
 		g := Group{Action: anyAction(r)}
 		size := groupSizes[r.Intn(len(groupSizes))]
+		if manyGroups {
+			size = r.Intn(4)
+		}
 		switch profile {
 		case "conds":
 			size = r.Intn(6)
